@@ -61,7 +61,10 @@ fn main() {
         let runs = if args[2] == "thorough" { 10 } else { 3 };
         let mut lines = vec![];
         for (i, inp) in pipeline::pipeline_inputs().iter().enumerate() {
-            for threads in [1usize, 2, 3, 4, 8, 16, 64] {
+            let bigi = pipeline::is_big(inp);
+            let pools: &[usize] = if bigi { &[1, 2, 5, 16] } else { &[1, 2, 3, 4, 8, 16, 64] };
+            let runs = if bigi { runs.min(2) } else { runs };
+            for &threads in pools {
                 let pool = rayon::ThreadPoolBuilder::new().num_threads(threads).build().expect("pool");
                 for run in 0..runs {
                     let d = util::guarded(|| pool.install(|| pipeline::run_pipeline(inp)).total()).unwrap_or(1);
@@ -73,12 +76,21 @@ fn main() {
         // one after the other on the persistent workers of one fresh pool; the digest of the last call must be the
         // digest of that input run alone (a pure function of the input does not depend on what was computed before)
         let inputs = pipeline::pipeline_inputs();
-        let all: Vec<usize> = (0..inputs.len()).collect();
+        // big inputs are not part of the all-pairs histories (cost); each one follows and precedes itself and two small inputs
+        let all: Vec<usize> = (0..inputs.len()).filter(|&i| !pipeline::is_big(&inputs[i])).collect();
+        let big: Vec<usize> = (0..inputs.len()).filter(|&i| pipeline::is_big(&inputs[i])).collect();
         let hist_only: Vec<usize> = (0..inputs.len()).filter(|&i| !inputs[i].explore).collect();
         let mut seqs: Vec<Vec<usize>> = vec![];
         for &a in &all {
             for &b in &all {
                 seqs.push(vec![a, b]);
+            }
+        }
+        for &b in &big {
+            seqs.push(vec![b, b]);
+            for &a in all.iter().take(2) {
+                seqs.push(vec![a, b]);
+                seqs.push(vec![b, a]);
             }
         }
         if args[2] == "thorough" {
@@ -91,16 +103,31 @@ fn main() {
             }
         }
         let nseq = seqs.len();
+        // histories are independent of one another (each has its own fresh pool): eight driver threads
         for threads in [1usize, 2] {
-            for sq in &seqs {
-                let pool = rayon::ThreadPoolBuilder::new().num_threads(threads).build().expect("pool");
-                let mut last = 0u64;
-                for &i in sq {
-                    // a panic is an observation (digest 1): it cannot equal the reference of the input
-                    last = util::guarded(|| pool.install(|| pipeline::run_pipeline(&inputs[i])).total()).unwrap_or(1);
+            let next = std::sync::atomic::AtomicUsize::new(0);
+            let out: std::sync::Mutex<Vec<(usize, String)>> = std::sync::Mutex::new(vec![]);
+            std::thread::scope(|sc| {
+                for _ in 0..8 {
+                    sc.spawn(|| loop {
+                        let k = next.fetch_add(1, std::sync::atomic::Ordering::Relaxed);
+                        if k >= seqs.len() {
+                            break;
+                        }
+                        let sq = &seqs[k];
+                        let pool = rayon::ThreadPoolBuilder::new().num_threads(threads).build().expect("pool");
+                        let mut last = 0u64;
+                        for &i in sq {
+                            // a panic is an observation (digest 1): it cannot equal the reference of the input
+                            last = util::guarded(|| pool.install(|| pipeline::run_pipeline(&inputs[i])).total()).unwrap_or(1);
+                        }
+                        out.lock().unwrap().push((k, format!("hist\t{}\t{}\t{:016x}", sq.iter().map(|i| i.to_string()).collect::<Vec<_>>().join(">"), threads, last)));
+                    });
                 }
-                lines.push(format!("hist\t{}\t{}\t{:016x}", sq.iter().map(|i| i.to_string()).collect::<Vec<_>>().join(">"), threads, last));
-            }
+            });
+            let mut o = out.into_inner().unwrap();
+            o.sort();
+            lines.extend(o.into_iter().map(|x| x.1));
         }
         println!("C09REAL: {} call histories x 2 pool sizes", nseq);
         let path = std::env::var("VERIF_C09_REAL_OUT").unwrap_or_else(|_| "/tmp/c09_real.digest".to_string());
